@@ -296,21 +296,14 @@ fn extra(cfg: &RunCfg, w: &mut Worker) {
                 // a long single paragraph that fits: wrap / fill at widths around the display width and the byte length
                 {
                     let line: String = big.replace('\n', " ");
-                    let dwl = textwrap::core::display_width(&line);
-                    let want = line.trim_end_matches(' ').to_string();
+                    let dwl = ref_width(&line);
                     for width in [dwl, dwl + 1, line.len().saturating_sub(1), line.len(), line.len() + 1, line.len() + 7] {
                         if width < dwl {
                             continue;
                         }
                         let mut o = g.clone();
                         o.width = width;
-                        let lines = textwrap::wrap(&line, o.build());
-                        let filled = textwrap::fill(&line, o.build());
-                        w.stats.calls += 2;
-                        if lines.len() != 1 || lines[0] != want || filled != want {
-                            // record through the normal path with a replayable case
-                            w.run_case(&Case::new("fits_large").text(line.clone()).opt(o));
-                        }
+                        w.run_case(&Case::new("fits_large").text(line.clone()).opt(o));
                     }
                 }
                 // one long single line that fits: sweep-like check at a single width beyond the byte length
